@@ -94,9 +94,17 @@ def blen(data):
     return len(data)
 
 
+def _rng(v):
+    """bytes are 0..255 (assumed on every array read the specification makes)"""
+    c = _CUR[0]
+    if c is not None and is_z3(v):
+        c.assume(z3.And(v >= 0, v <= 255))
+    return v
+
+
 def byte(data, i):
     if isinstance(data, SBytes):
-        return simp(data.at(i))
+        return simp(_rng(data.at(i)))
     return bytes(data[i:i + 1])[0]
 
 
@@ -105,7 +113,7 @@ def be(data, off, n):
     if isinstance(data, SBytes):
         t = I(0)
         for k in range(n):
-            t = t + data.at(zint(off) + k) * I(256 ** (n - 1 - k))
+            t = t + _rng(data.at(zint(off) + k)) * I(256 ** (n - 1 - k))
         return simp(t)
     return int.from_bytes(bytes(data[off:off + n]), 'big')
 
@@ -127,7 +135,7 @@ def hexstr(data, off, n, upper=False):
     if isinstance(data, SBytes):
         out = []
         for k in range(n):
-            v = data.at(zint(off) + k)
+            v = _rng(data.at(zint(off) + k))
             out.append(simp(hexdigit(v / 16, upper)))
             out.append(simp(hexdigit(v % 16, upper)))
         return mkstr(out)
@@ -138,7 +146,7 @@ def hexstr(data, off, n, upper=False):
 def ascii_text(data, off, n):
     """the n bytes as characters (valid when they are ASCII)"""
     if isinstance(data, SBytes):
-        return mkstr([simp(data.at(zint(off) + k)) for k in range(n)])
+        return mkstr([simp(_rng(data.at(zint(off) + k))) for k in range(n)])
     return bytes(data[off:off + n]).decode('ascii')
 
 
